@@ -50,12 +50,20 @@ def run_scenario(chk, sc, cfgseed, dtype, axes, flavour="sched", workers=None, c
     lat = lattice.Lattice(sc["mesh"], sc["n1"], sc["n2"], axes=axes, ext0=[3, 4, 2, 5][cfgseed % 4], ext_cut=(cfgseed // 4) % 3 != 0,
                           tile=(1 + cfgseed % 2) if crowd else (2 if cfgseed % 7 == 3 else None))       # one in seven: the same cells in many small boxes
     nfiles = [1] * len(sc["nfiles"]) if crowd else sc["nfiles"]
+    # every second crowd: the opposite -- every box in a binary file of ITS OWN (dozens to hundreds of files per level, a count that
+    # is no multiple of anything in particular)
+    spread = crowd and (cfgseed // 2) % 2 == 1
     # boxes dealt over the files round-robin, from the first file or from the last one: with an uneven deal the files with
     # the most boxes (the largest, read first) are then the first-named or the last-named ones
     rev = cfgseed % 2 == 1
     # field names: plain, or three names that differ only by the case of their letters (distinct fields)
     fnames = [["u", "v", "w"], ["P", "p", "rho"], ["temp", "Temp", "TEMP"], ["u", "v", "w"], ["y(H2)", "Y(h2)", "Y(H2)"]][cfgseed % 5]
-    ap = lat.ap("A", fnames, files_of=lambda lv, b: (nfiles[lv] - (b - 1) % nfiles[lv]) if rev else ((b - 1) % nfiles[lv] + 1),
+    if spread:
+        nfiles = [len(lat.concrete_boxes(lv)) for lv in range(len(sc["mesh"]))]
+    import itertools
+    own = [itertools.count(1) for _ in sc["mesh"]]          # (lat.ap asks once per concrete box, in header order)
+    ap = lat.ap("A", fnames, files_of=(lambda lv, b: next(own[lv])) if spread else
+                (lambda lv, b: (nfiles[lv] - (b - 1) % nfiles[lv]) if rev else ((b - 1) % nfiles[lv] + 1)),
                 shuffle=lambda lv, f, v: rng.sample(v, len(v)))
     # integer grids: values that the integer type can hold (the conversion of NaN / inf / 1e300 to an integer is undefined)
     flds = lattice.Fields(lat, cfgseed, payload="wild" if cfgseed % 2 and not dtype.startswith("int") else "tame")
@@ -81,8 +89,9 @@ def run_scenario(chk, sc, cfgseed, dtype, axes, flavour="sched", workers=None, c
     plan, pos = {}, 0
     for l in range(lim + 1):
         n = nfiles[l]
-        plan[l + 1] = [1] if crowd else sc["sched"][pos:pos + n]
+        plan[l + 1] = ([1] if not spread else None) if crowd else sc["sched"][pos:pos + n]
         pos += n
+    plan = {k: v for k, v in plan.items() if v is not None}
     argv = ["-v", ap["fields"][fi - 1], "-o", out, "-d", dtype, "-y", "-l", str(lim), spell.of(src, cfgseed)[0]]
     try:
         # every other run may hold only a few descriptors more than it has at the start (shims.low_fd_limit): the number of open
